@@ -67,4 +67,63 @@ def zeros (n : Int) : List Rat := List.replicate n.toNat 0
 
 def castList (xs : List Int) : List Rat := xs.map (fun (z : Int) => (z : Rat))
 
+/-- `np.diff(xs, prepend=prev)`: the successive differences, the first one taken from `prev` -/
+def diffFrom (prev : Rat) : List Rat → List Rat
+  | [] => []
+  | x :: xs => (x - prev) :: diffFrom x xs
+/-- `np.diff(xs)` (one entry fewer than `xs`; empty for an empty `xs`) -/
+def diff : List Rat → List Rat
+  | [] => []
+  | x :: xs => diffFrom x xs
+
+/-! PyLite 3: `int(x)` of a float (truncation toward zero), integer zeros, `while` loops.
+  `whileLoop c b fuel s` runs `while c(s): s = b(s)` for at most `fuel` iterations: `none` when the fuel runs out while the
+  condition still holds (the translated function then returns its declared error value; the theorems about it show that this
+  does not happen on the stated domain), `some` final state otherwise.  Deques used as stacks are lists: `append` = `++ [v]`,
+  `pop()` = last element (`idx xs (-1)`) and `popAt xs (-1)`. -/
+
+def truncInt (x : Rat) : Int := if 0 ≤ x then x.floor else -((-x).floor)
+
+def izeros (n : Int) : List Int := List.replicate n.toNat 0
+
+def whileLoop {σ : Type} (cond : σ → Bool) (body : σ → σ) : Nat → σ → Option σ
+  | 0, s => if cond s then none else some s
+  | n + 1, s => if cond s then whileLoop cond body n (body s) else some s
+
+/-- `np.ceil(x)` / `np.floor(x)`: the integer as a float (`math.ceil` / `math.floor` are `Rat.ceil` / `Rat.floor` directly);
+    `u.astype(int)` of a float vector is `List.map truncInt` -/
+def rceil (x : Rat) : Rat := ((x.ceil : Int) : Rat)
+def rfloor (x : Rat) : Rat := ((x.floor : Int) : Rat)
+
+/-- `itertools.product(*xss)` (a list of lists given with a star): all choices of one element per list, in itertools' order
+    (first factor slowest); `product()` of no list is the single empty tuple -/
+def cartesian {α : Type} : List (List α) → List (List α)
+  | [] => [[]]
+  | xs :: rest => xs.flatMap (fun x => (cartesian rest).map (fun t => x :: t))
+
+/-- `zip(*xss)`: the i-th result collects the i-th elements of all the lists; as many results as the shortest list has
+    elements; `zip()` of no list is empty -/
+def transpose {α : Type} [Inhabited α] : List (List α) → List (List α)
+  | [] => []
+  | xs :: rest =>
+    (List.range ((rest.map List.length).foldl min xs.length)).map (fun i => (xs :: rest).map (fun ys => ys.getD i default))
+
+/-- `np.linspace(start, stop, num)` (endpoint=True, numpy/_core/function_base.py): `num = 0` gives `[]`, `num = 1` gives
+    `[start]` (the `stop` argument is ignored), otherwise `start + k·(stop − start)/(num − 1)` for `k < num − 1` followed by
+    `stop` itself (`y[-1] = stop`).  numpy raises ValueError for a negative `num`; here the value is `[]` (`Int.toNat`). -/
+def linspace (start stop : Rat) (num : Int) : List Rat :=
+  match num.toNat with
+  | 0 => []
+  | 1 => [start]
+  | n + 2 => (List.range (n + 1)).map (fun (k : Nat) => start + (k : Rat) * ((stop - start) / ((n + 1 : Nat) : Rat))) ++ [stop]
+
+/-- (C12) `xs.index(v)`: the position of the first occurrence of `v` (Python raises ValueError when there is none; here the
+    value is `len(xs)`: theorems are stated for a `v` that occurs) -/
+def indexOf {α : Type} [BEq α] (xs : List α) (v : α) : Int := ((xs.idxOf v : Nat) : Int)
+
+/-- (C15) the content of a fresh `np.empty` array: an unspecified number per (call site, position).  `opaque`: the kernel never
+    unfolds it and nothing can be proved about its values, so a theorem about a definition that mentions it holds whatever
+    the memory contained (a store `xs[k] = v` into every position, as the translated loops do, makes it disappear). -/
+opaque uninit (site pos : Int) : Rat
+
 end Rpylib.Py
